@@ -80,7 +80,7 @@ Cat(ss) == FlattenSeq(ss)
 AbsInit(cfg) ==
   [cfg |-> cfg, sp |-> EmptyFn, rt |-> EmptyFn, ctx |-> EmptyFn, sc |-> EmptyFn, ls |-> EmptyFn,
    att |-> EmptyFn, exp |-> {}, opt |-> {}, dl |-> {}, never |-> {}, claims |-> {}, hints |-> {}, cyc |-> {},
-   fl |-> EmptyFn, cmds |-> EmptyFn, cut |-> {}, qs |-> {}, pk |-> EmptyFn, exc |-> {}, got |-> <<>>, gotrecs |-> <<>>, tm |-> EmptyFn, ad |-> EmptyFn, polled |-> EmptyFn, ovl |-> FALSE, free |-> {}, heap |-> None, cbs |-> {}, viol |-> <<>>]
+   fl |-> EmptyFn, cmds |-> EmptyFn, cut |-> {}, qs |-> {}, pk |-> EmptyFn, exc |-> {}, got |-> <<>>, gotrecs |-> <<>>, tm |-> EmptyFn, ad |-> EmptyFn, polled |-> EmptyFn, ovl |-> FALSE, free |-> {}, heap |-> None, cbs |-> {}, dur |-> EmptyFn, viol |-> <<>>]
 
 Recording(a) == a.cfg.enabled /\ a.cfg.ready
 
@@ -574,13 +574,16 @@ TakeRecord(a, rec) ==
            Pick(S) == IF S \cap a.exp # {} THEN CHOOSE x \in S \cap a.exp : TRUE ELSE CHOOSE x \in S : TRUE
            e == IF fit # {} THEN Pick(fit) ELSE IF open # {} THEN Pick(open) ELSE Pick(C)
            a1 == [a EXCEPT !.exp = @ \ {e}, !.opt = @ \ {e}, !.dl = @ \cup {[n |-> e.n, tr |-> e.tr, r |-> e.r, par |-> e.par, ci |-> e.ci]}]
-           a2 == IF rec.id = Zero THEN Viol(a1, "C02", "zero-id", rec) ELSE Claim(a1, "C02", rec.name, rec.id)
+           a2c == IF rec.id = Zero THEN Viol(a1, "C02", "zero-id", rec) ELSE Claim(a1, "C02", rec.name, rec.id)
+           \* copies of a captured local span carry the same id under every parent (C17)
+           a2 == IF e.own /\ Len(a2c.viol) > Len(a1.viol) THEN Viol(a2c, "C17", "copies-differ-in-id", rec) ELSE a2c
            a3 == IF e.par = None
                  THEN IF a.rt[e.r].rpar # rec.parent THEN Viol(a2, "C02", "remote-parent", rec) ELSE a2
                  ELSE IF fit = {} /\ open = {}
                  THEN LET v == Viol(a2, "C02", "wrong-parent", [rec |-> rec, want |-> e.par]) IN
                       \* the parent came from the thread's local context: that is C10's business as well
                       IF e.own \/ (Has(a.sp, e.n) /\ a.sp[e.n].via = "local") THEN Viol(v, "C10", "wrong-parent-from-local-context", [rec |-> rec, want |-> e.par]) ELSE v
+                 ELSE IF e.par = e.r /\ "virt" \in DOMAIN a.rt[e.r] THEN a2     \* to_span_records: the parent is a context, not a span
                  ELSE Claim(a2, "C02", e.par, rec.parent)
            cb == ContentBad(a, e, rec)
            cid == a.rt[e.r].cid
@@ -595,8 +598,13 @@ TakeRecord(a, rec) ==
            tb == TimeBad(a, rec)
            a5 == IF tb = "ok" THEN a4
                  ELSE LET v == Viol(a4, "C18", tb, [rec |-> rec, tm |-> a.tm[rec.name]]) IN
-                      IF rec.name \in a.cbs THEN Viol(v, "C17", "open-span-not-closed-at-collection-time", [rec |-> rec, tm |-> a.tm[rec.name]]) ELSE v IN
-       [a5 EXCEPT !.got = Append(@, e), !.gotrecs = Append(@, rec)]
+                      IF rec.name \in a.cbs THEN Viol(v, "C17", "open-span-not-closed-at-collection-time", [rec |-> rec, tm |-> a.tm[rec.name]]) ELSE v
+           \* ... and the same duration (one captured interval; conversions may round differently)
+           a6 == IF ~e.own \/ ~("d" \in DOMAIN rec) THEN a5
+                 ELSE IF ~Has(a.dur, rec.name) THEN [a5 EXCEPT !.dur = Put(@, rec.name, rec.d)]
+                 ELSE IF rec.d > a.dur[rec.name] + 2 \/ a.dur[rec.name] > rec.d + 2
+                 THEN Viol(a5, "C17", "copies-differ-in-duration", [rec |-> rec, first |-> a.dur[rec.name]]) ELSE a5 IN
+       [a6 EXCEPT !.got = Append(@, e), !.gotrecs = Append(@, rec)]
 
 RECURSIVE TakeAll(_, _, _)
 TakeAll(a, recs, i) == IF i > Len(recs) THEN a ELSE TakeAll(TakeRecord(a, recs[i]), recs, i + 1)
@@ -629,6 +637,31 @@ Report(a, e) ==
       nb == NestBad(a, a1.got, a1.gotrecs)
       a3 == IF nb = "ok" THEN a2 ELSE Viol(a2, "C18", nb, a1.gotrecs) IN
   [a3 EXCEPT !.got = <<>>, !.gotrecs = <<>>]
+
+\* LocalSpans::to_span_records(ctx) (C17): exactly the records that pushing the set under a span with
+\* that context would deliver.  Checked by the same TakeRecord, against a virtual parent e.v whose
+\* id is the context's span id, with everything else that is expected set aside for the moment.
+RetToRec(a, e) ==
+  IF ~e.ctx.some THEN a
+  ELSE LET a00 == IF F(e, "src") = None THEN a ELSE CheckCtx(a, "C11", SpanCtx(a, e.src), e.ctx)
+           has == Has(a.ls, e.ls)
+           ents == IF has THEN a.ls[e.ls].ents ELSE <<>>
+           st == IF has THEN a.ls[e.ls].t ELSE e.t
+           lin == <<[r |-> e.v, tr |-> e.ctx.tr, par |-> e.v, smp |-> TRUE]>>
+           want == {[x EXCEPT !.due = TRUE] : x \in SetRecords(ents, e.v, lin, st, e.t, e.ls)}
+           vroot == [tr |-> e.ctx.tr, rpar |-> e.ctx.id, smp |-> TRUE, st |-> "open", cid |-> None,
+                     opt |-> FALSE, mem |-> {}, done |-> FALSE, ret |-> FALSE, dcancel |-> FALSE, virt |-> TRUE]
+           a0 == [Hint(a00, e.v, e.ctx.id) EXCEPT !.rt = Put(@, e.v, vroot), !.exp = want, !.opt = {}, !.never = {}, !.dl = {},
+                                                  !.got = <<>>, !.gotrecs = <<>>]
+           a1 == TakeAll(a0, e.recs, 1)
+           nb == NestBad(a0, a1.got, a1.gotrecs)
+           a2 == IF nb = "ok" THEN a1 ELSE Viol(a1, "C18", nb, a1.gotrecs)
+           a3 == IF a2.exp # {} THEN Viol(a2, "C17", "to_span_records-record-missing", {x.n : x \in a2.exp}) ELSE a2
+           new == SubSeq(a3.viol, Len(a00.viol) + 1, Len(a3.viol))
+           also == SelectSeq(new, LAMBDA x : x.p # "C17")
+           re == [i \in DOMAIN also |-> [also[i] EXCEPT !.p = "C17", !.d = <<"to_span_records", @>>]] IN
+       [a3 EXCEPT !.rt = a.rt, !.exp = a.exp, !.opt = a.opt, !.never = a.never, !.dl = a.dl, !.got = <<>>, !.gotrecs = <<>>,
+                  !.hints = {c \in @ : c[1] # e.v}, !.viol = @ \o re]
 
 ----------------------------------------------------------------------------
 (* collector cycles, rings, statistics *)
@@ -746,6 +779,7 @@ Ret(a, e) ==
               [] e.op = "flush"  -> RetFlush(a0, e)
               [] e.op = "fpoll"  -> RetFPoll(a0, e)
               [] e.op = "fdrop"  -> RetFDrop(a0, e)
+              [] e.op = "torec"  -> RetToRec(a0, e)
               [] e.op = "drop" /\ Has(a0.rt, e.h) -> [a0 EXCEPT !.rt[e.h].ret = TRUE]
               [] OTHER           -> a0 IN
   Settle(a1, e.t, Refused(e))
